@@ -71,4 +71,128 @@ theorem gap_nonneg (contig : Bool) (C : List (List α)) (y w : List α) (l1r pen
 example : 0 ≤ dualityGap (α := ℚ) true [[1, -1]] [2, 0] [1] (residual [[1, -1]] [2, 0] [1] 0) 1 (1 / 4) 2 :=
   gap_nonneg true _ _ _ _ _ _ (by simp) (by simp) (by norm_num) (by norm_num) (by norm_num) (by norm_num)
 
+/-- **Intercept**: for fixed coefficients the squared error is minimal in the intercept *iff* the
+intercept is the mean residual `mean(y − Xw)` (so a returned pair whose residual does not have
+zero mean is not a joint minimiser — what the oracle clause `intercept_jointly_optimal` tests). -/
+theorem intercept_optimal_iff_mean (C : List (List α)) (y w : List α) (b : α)
+    (hC : ∀ c ∈ C, c.length = y.length) (hn : 0 < y.length) :
+    (∀ b', sse C y w b ≤ sse C y w b') ↔ b = sumS (residual C y w 0) / (y.length : α) := by
+  have hlen := residual_length C y w 0 hC
+  simp only [sse, dotS_eq, sumS_eq]
+  generalize hv : residual C y w 0 = v at hlen
+  have hnpos : (0 : α) < (y.length : α) := by exact_mod_cast hn
+  have hsh : ∀ b', dot (residual C y w b') (residual C y w b') =
+      dot (v.map (· - v.sum / (y.length : α))) (v.map (· - v.sum / (y.length : α)))
+        + (y.length : α) * (v.sum / (y.length : α) - b') ^ 2 := by
+    intro b'
+    rw [residual_shift, hv, sum_sq_shift v b' (v.sum / (y.length : α)), hlen]
+    have : v.sum - (y.length : α) * (v.sum / (y.length : α)) = 0 := by field_simp; ring
+    rw [this]; ring
+  constructor
+  · intro h
+    have := h (v.sum / (y.length : α))
+    rw [hsh b, hsh (v.sum / (y.length : α))] at this
+    have h2 : (y.length : α) * (v.sum / (y.length : α) - b) ^ 2 ≤ 0 := by nlinarith
+    have h3 : (v.sum / (y.length : α) - b) ^ 2 ≤ 0 := by
+      by_contra hc
+      have : 0 < (y.length : α) * (v.sum / (y.length : α) - b) ^ 2 := mul_pos hnpos (lt_of_not_ge hc)
+      linarith
+    have h4 : v.sum / (y.length : α) - b = 0 := by
+      have := sq_nonneg (v.sum / (y.length : α) - b)
+      exact pow_eq_zero_iff (n := 2) (by norm_num) |>.mp (le_antisymm h3 this)
+    linarith
+  · intro h b'
+    rw [hsh b, hsh b', h]
+    have : 0 ≤ (y.length : α) * (v.sum / (y.length : α) - b') ^ 2 := mul_nonneg hnpos.le (sq_nonneg _)
+    nlinarith
+
+example : (∀ b', sse (α := ℚ) [[1, 2, 3]] [1, 2, 4] [1] (1 / 3) ≤ sse [[1, 2, 3]] [1, 2, 4] [1] b') :=
+  (intercept_optimal_iff_mean _ _ _ _ (by simp) (by simp)).mpr (by simp [residual, matVec, sumS]; norm_num)
+
+/-- **OLS certificate**: if the residual of `(w, b)` is orthogonal to every feature column and to the
+constant column, no `(w', b')` has a smaller sum of squared errors. -/
+theorem normal_eq_optimal (C : List (List α)) (y w w' : List α) (b b' : α)
+    (hC : ∀ c ∈ C, c.length = y.length) (hw : w.length = C.length) (hw' : w'.length = C.length)
+    (horth : ∀ c ∈ C, dotS c (residual C y w b) = 0) (hone : sumS (residual C y w b) = 0) :
+    sse C y w b ≤ sse C y w' b' := by
+  have hlen := residual_length C y w b hC
+  simp only [sse, dotS_eq, sumS_eq] at *
+  generalize hr : residual C y w b = r at *
+  have hal : ∀ v, (matVec y.length C v).length = y.length := fun v => matVec_length _ _ _ hC
+  have e1 : dot r (residual C y w' b') = dot r y := by
+    unfold residual
+    rw [dot_residual b' r y _ (hal w').symm hlen, dot_matVec _ C w' r hC hw', sum_zipWith_zero C r w' horth, hone]
+    ring
+  have e2 : dot r r = dot r y := by
+    have e : dot r (residual C y w b) = dot r y := by
+      unfold residual
+      rw [dot_residual b r y _ (hal w).symm hlen, dot_matVec _ C w r hC hw, sum_zipWith_zero C r w horth, hone]
+      ring
+    rwa [hr] at e
+  have hl' : (residual C y w' b').length = r.length := by rw [residual_length C y w' b' hC, hlen]
+  have := half_sq_ge 1 (residual C y w' b') r hl'
+  nlinarith
+
+example : sse (α := ℚ) [[0, 1, 2]] [0, 0, 2] [1] (-1 / 3) ≤ sse [[0, 1, 2]] [0, 0, 2] [2] 5 :=
+  normal_eq_optimal _ _ _ _ _ _ (by simp) (by simp) (by simp)
+    (by simp [residual, matVec, dotS, sumS]; norm_num) (by simp [residual, matVec, sumS]; norm_num)
+
+/-- OLS without intercept: orthogonality to the feature columns suffices against every `w'` -/
+theorem normal_eq_optimal_no_intercept (C : List (List α)) (y w w' : List α)
+    (hC : ∀ c ∈ C, c.length = y.length) (hw : w.length = C.length) (hw' : w'.length = C.length)
+    (horth : ∀ c ∈ C, dotS c (residual C y w 0) = 0) :
+    sse C y w 0 ≤ sse C y w' 0 := by
+  have hlen := residual_length C y w 0 hC
+  simp only [sse, dotS_eq] at *
+  generalize hr : residual C y w 0 = r at *
+  have hal : ∀ v, (matVec y.length C v).length = y.length := fun v => matVec_length _ _ _ hC
+  have e1 : dot r (residual C y w' 0) = dot r y := by
+    unfold residual
+    rw [dot_residual 0 r y _ (hal w').symm hlen, dot_matVec _ C w' r hC hw', sum_zipWith_zero C r w' horth]
+    ring
+  have e2 : dot r r = dot r y := by
+    have e : dot r (residual C y w 0) = dot r y := by
+      unfold residual
+      rw [dot_residual 0 r y _ (hal w).symm hlen, dot_matVec _ C w r hC hw, sum_zipWith_zero C r w horth]
+      ring
+    rwa [hr] at e
+  have hl' : (residual C y w' 0).length = r.length := by rw [residual_length C y w' 0 hC, hlen]
+  have := half_sq_ge 1 (residual C y w' 0) r hl'
+  nlinarith
+
+example : sse (α := ℚ) [[-1, 1]] [1, 1] [0] 0 ≤ sse [[-1, 1]] [1, 1] [3] 0 :=
+  normal_eq_optimal_no_intercept _ _ _ _ (by simp) (by simp) (by simp)
+    (by simp [residual, matVec, dotS, sumS])
+
+/-- **The coordinate update is the exact one-dimensional minimiser** of
+`z ↦ ½·den·z² − tmp·z + thr·|z|` (`den = ‖x_j‖² + n(1−ρ)pen > 0`, `thr = nρ·pen ≥ 0`, `tmp = x_jᵀr_j`),
+which is the objective restricted to coordinate `j` up to a constant. -/
+theorem soft_is_argmin (tmp thr den z : α) (hthr : 0 ≤ thr) (hden : 0 < den) :
+    1 / 2 * den * (softThreshold tmp thr den) ^ 2 - tmp * softThreshold tmp thr den
+        + thr * |softThreshold tmp thr den|
+      ≤ 1 / 2 * den * z ^ 2 - tmp * z + thr * |z| :=
+  soft_threshold_argmin tmp thr den z hthr hden
+
+example : (1 : ℚ) / 2 * 2 * (softThreshold 3 1 2) ^ 2 - 3 * softThreshold 3 1 2 + 1 * |softThreshold (3 : ℚ) 1 2|
+    ≤ 1 / 2 * 2 * 5 ^ 2 - 3 * 5 + 1 * |5| := soft_is_argmin 3 1 2 5 (by norm_num) (by norm_num)
+
+/-- **Coefficients under the l1 threshold are exactly zero**: `|x_jᵀ r_j| ≤ n·ρ·pen` makes the
+update `0` (no division residue, whatever the denominator). -/
+theorem zero_below_threshold (tmp thr den : α) (h : |tmp| ≤ thr) : softThreshold tmp thr den = 0 :=
+  soft_threshold_zero tmp thr den h
+
+example : softThreshold (-(1 : ℚ) / 2) 1 3 = 0 := zero_below_threshold _ _ _ (by norm_num [abs_le])
+
+/-- the same inside the loop body: after `cdCoord` on a column that is not skipped, coordinate `j`
+is exactly `0` whenever the correlation with the partial residual is under the threshold -/
+theorem cdCoord_zero_below_threshold (contig : Bool) (eps thr denAdd : α) (st : CdState α) (j : Nat)
+    (cj : List α) (nrm : α) (hj : j < st.w.length) (hn : ¬ absS nrm ≤ eps)
+    (h : |dotC contig cj (if absS (st.w.getD j 0) ≤ eps then st.r else axpy (st.w.getD j 0) cj st.r)| ≤ thr) :
+    (cdCoord contig eps thr denAdd st j cj nrm).w.getD j 0 = 0 := by
+  unfold cdCoord
+  rw [if_neg hn]
+  simp only []
+  rw [soft_threshold_zero _ _ _ h]
+  simp [hj]
+
 end LinfaSpec.Props.C11
